@@ -12,6 +12,8 @@ import (
 	"os"
 	"runtime"
 	"sort"
+	"strconv"
+	"strings"
 	"sync/atomic"
 	"time"
 
@@ -135,17 +137,50 @@ func (o *Out) Deadline() time.Time {
 
 // MemLimit: executions that end pruned or blocked leak their natively blocked goroutines (with
 // whatever they hold); a worker that has grown past this stops starting new cells and reports a cap.
+// It is the resident set size that counts (a -race build keeps several times the Go heap in shadow
+// memory); the limit is this worker's share of 70% of the machine's memory, at most 7 GiB.
 var MemLimit uint64 = 7 << 30
+
+func procKB(file, field string) uint64 {
+	b, err := os.ReadFile(file)
+	if err != nil {
+		return 0
+	}
+	for _, l := range strings.Split(string(b), "\n") {
+		if strings.HasPrefix(l, field) {
+			f := strings.Fields(l[len(field):])
+			if len(f) > 0 {
+				v, _ := strconv.ParseUint(f[0], 10, 64)
+				return v
+			}
+		}
+	}
+	return 0
+}
+
+func (o *Out) memLimit() uint64 {
+	lim := MemLimit
+	if tot := procKB("/proc/meminfo", "MemTotal:") << 10; tot > 0 && o.spec != nil && o.spec.Workers > 0 {
+		if share := tot / 10 * 7 / uint64(o.spec.Workers); share < lim {
+			lim = share
+		}
+	}
+	return lim
+}
 
 func (o *Out) OverBudget() bool {
 	o.memTick++
 	if o.memTick%16 == 0 && !o.stopped {
-		var ms runtime.MemStats
-		runtime.ReadMemStats(&ms)
-		if ms.Sys > MemLimit {
+		rss := procKB("/proc/self/status", "VmRSS:") << 10
+		if rss == 0 {
+			var ms runtime.MemStats
+			runtime.ReadMemStats(&ms)
+			rss = ms.Sys
+		}
+		if rss > o.memLimit() {
 			o.stopped = true
 			o.memStop = true
-			o.Cap("worker memory reached %d MiB (leaked goroutines of abandoned executions); remaining cells not explored", ms.Sys>>20)
+			o.Cap("worker memory reached %d MiB (leaked goroutines of abandoned executions); remaining cells not explored", rss>>20)
 		}
 	}
 	if o.memStop {
